@@ -93,7 +93,8 @@ impl Blob {
 
         // Update blob section header with actual lenght
         let end_offset = writer.physical_position()?;
-        section_header.section_length = length;
+        // The section length covers the section header, the data and the padding to the next 4-byte boundary.
+        section_header.section_length = (16 + length + 3) / 4 * 4;
         writer.physical_seek(start_offset)?;
         section_header.to_writer(writer)?;
         writer.physical_seek(end_offset)?;
